@@ -168,12 +168,16 @@ func recordKV(env *core.Env, emit func(map[string]any)) (*core.Summary, error) {
 		for i := 0; i < depth; i++ {
 			var st core.Step
 			x := r.Intn(100)
+			mkSeek := func() core.Step {
+				t := pick()
+				return core.Step{"op": "Seek", "key": t, "inrange": inRange(open, ints(t))}
+			}
 			switch {
-			case open == nil && x < 30:
+			case open == nil && (x < 35 || i < 10):
 				st = core.Step{"op": "Set", "key": pick(), "val": float64(r.Intn(4))}
-			case open == nil && x < 40:
+			case open == nil && x < 45:
 				st = core.Step{"op": "Delete", "key": pick()}
-			case open == nil && x < 52:
+			case open == nil && x < 60:
 				var ops []any
 				for j := 1 + r.Intn(4); j > 0; j-- {
 					if r.Intn(3) == 0 {
@@ -184,7 +188,7 @@ func recordKV(env *core.Env, emit func(map[string]any)) (*core.Summary, error) {
 					}
 				}
 				st = core.Step{"op": "Batch", "ops": ops}
-			case x < 60 && (open == nil || r.Intn(4) == 0):
+			case open == nil && x < 70:
 				st = core.Step{"op": "Get", "key": pick()}
 			case open == nil:
 				mode := []string{"prefix", "range", "open", "prefix"}[r.Intn(4)]
@@ -196,13 +200,18 @@ func recordKV(env *core.Env, emit func(map[string]any)) (*core.Summary, error) {
 					}
 				}
 				st = core.Step{"op": "ItOpen", "start": bound(), "end": end, "mode": mode, "rev": r.Intn(2) == 0}
-			case positioned && x < 85:
+			case positioned && x < 60:
 				st = core.Step{"op": "Next"}
-			case x < 70:
+			case positioned && x < 75:
+				st = mkSeek()
+			case positioned && x < 80:
 				st = core.Step{"op": "Rewind"}
-			case x < 92:
-				t := pick()
-				st = core.Step{"op": "Seek", "key": t, "inrange": inRange(open, ints(t))}
+			case !positioned && x < 35:
+				st = core.Step{"op": "Rewind"}
+			case !positioned && x < 70:
+				st = mkSeek()
+			case x < 85:
+				st = core.Step{"op": "Get", "key": pick()}
 			default:
 				st = core.Step{"op": "ItClose"}
 			}
@@ -244,6 +253,16 @@ func recordKV(env *core.Env, emit func(map[string]any)) (*core.Summary, error) {
 			if len(evs) < 14 {
 				evs = append(evs, ev)
 			}
+		}
+		if open != nil {
+			st := core.Step{"op": "ItClose"}
+			ret, _, _ := k.apply(st)
+			emitStep(emit, st, ret)
+		}
+		{
+			st := core.Step{"op": "Get", "key": pick()}
+			ret, _, _ := k.apply(st)
+			emitStep(emit, st, flatGet(ret))
 		}
 		d.Close()
 		sum.Behaviours++
@@ -529,6 +548,11 @@ func recordLocalDB(env *core.Env, emit func(map[string]any)) (*core.Summary, err
 			if len(evs) < 14 {
 				evs = append(evs, ev)
 			}
+		}
+		{
+			st := core.Step{"op": "Get", "key": hot[r.Intn(len(hot))]}
+			ret, _, _ := ld.apply(st)
+			emitStep(emit, st, flatGet(ret))
 		}
 		d.Close()
 		sum.Behaviours++
